@@ -403,7 +403,8 @@ def _session_events(h, f, sid, s, expect_liveness):
                 blocked = _blocking_note(h)
                 sig = '%s|missing-disconnect|%s' % (impl, cz['kind'])
                 if cz.get('all_sessions') and _disconnect_all_stuck(h):
-                    sig = '%s|disconnect-all-blocked' % impl
+                    sig = '%s|disconnect-all-blocked|%s' % (
+                        impl, k1_reader_all(h, _stuck_all(h)))
                 out.append(V('disconnect-missing', sig,
                              'session %s (client %s): end cause %s at t=%.4f '
                              'but no disconnect event by t=%.4f (deadline '
@@ -476,6 +477,84 @@ def _disconnect_due(f, causes, slack):
     return best
 
 
+def k1_reader(h, sid, t0, seq0=None):
+    """close(wait=True) waits in queue.join() until somebody has taken what
+    is queued for the session (K1).  Did a reader turn up after the call
+    began (event number seq0 / time t0)?
+    'no-reader': nobody read again - the wait is unbounded by design of
+    close(wait=True); 'reader-refused': the client did poll again but a
+    session that is already marked closed answers 400, so the CLOSE packet
+    can never be fetched; 'despite-reader': the queue was read and the call
+    still hung."""
+    if sid is None:
+        return 'no-reader'
+    q = h.world.qlog.get(sid, [])
+    ic = next((i for i, e in enumerate(q) if e[2] == R.CLOSE), None)
+    if ic is not None and any(e[2] not in (None, R.CLOSE)
+                              for e in q[ic + 1:]):
+        # K12: a send() that raced with close() put its packet behind the
+        # CLOSE packet and the end marker; no reader goes that far
+        return 'packet-behind-close'
+
+    def after(seq, t):
+        if seq0 is not None and seq is not None:
+            return seq > seq0
+        return t is not None and t > t0 + EPS
+    refused = False
+    for r in h.world.requests:
+        if r.kind != 'http' or r.method != 'GET' or \
+                ('sid=' + sid) not in (r.query or '') or \
+                r.seq_arrive is None:
+            continue
+        if r.status == 200 and after(r.seq_done, r.t_done):
+            # (it must have been handed the CLOSE packet: a reader that was
+            # served just before CLOSE was queued does not count)
+            body = r.resp_body or b''
+            if any(p in (b'1', b'"1"') or p.endswith((b'("1");', b'\\u001e1");'))
+                   for p in body.split(b'\x1e')) or b'\\u001e1' in body:
+                return 'despite-reader'
+        elif r.status == 400 and (after(r.seq_arrive, r.t_arrive) or
+                                  after(r.seq_done, r.t_done)):
+            refused = True
+    conns = [c for c in h.world.wsconns
+             if ('sid=' + sid) in (c.req.query or '')]
+    cl = h.client_of_sid.get(sid)
+    if cl is not None and cl.open_ws is not None:
+        conns.append(cl.open_ws)
+    for conn in conns:
+        if any(after(sq, t) and d == '1' for (sq, t, d) in conn.sent_s):
+            return 'despite-reader'
+    return 'reader-refused' if refused else 'no-reader'
+
+
+def k1_reader_all(h, a):
+    """disconnect() without a sid: it hangs on the first session nobody
+    reads."""
+    tb = a.get('table_before') or {}
+    sids = {sid for sid, st in tb.items()
+            if st is not None and not st.get('closed')}
+    # (also sessions that entered the table while the call was at work:
+    # every queue that got a CLOSE packet after the call began)
+    for sid, q in h.world.qlog.items():
+        if any(pt == R.CLOSE and sq > a['seq_start'] for (sq, _t, pt, _d)
+               in q):
+            sids.add(sid)
+    kinds = [k1_reader(h, sid, a['t_start'], a['seq_start'])
+             for sid in sorted(sids)]
+    for k in ('packet-behind-close', 'no-reader', 'reader-refused'):
+        if k in kinds:
+            return k
+    return 'despite-reader' if kinds else 'no-reader'
+
+
+def _stuck_all(h):
+    for a in h.world.api_calls:
+        if a['name'] == 'disconnect' and 'sid' not in a and \
+                a['seq_start'] is not None and a['seq_end'] is None:
+            return a
+    return None
+
+
 def _disconnect_all_stuck(h):
     """A server.disconnect() (all sessions) call that never returned."""
     return any(a['name'] == 'disconnect' and 'sid' not in a and
@@ -539,7 +618,8 @@ def _check_reason(f, sid, s, d, causes):
             sig = '%s|not-first-cause|%s|first=%s' % (impl, reason,
                                                       first['kind'])
             if first.get('all_sessions') and _disconnect_all_stuck(f.h):
-                sig = '%s|disconnect-all-blocked' % impl
+                sig = '%s|disconnect-all-blocked|%s' % (
+                    impl, k1_reader_all(f.h, _stuck_all(f.h)))
             out.append(V('disconnect-reason', sig,
                          'session %s: first cause was %s at t=%.4f (all '
                          'others strictly later) but the reason is %r'
@@ -1175,7 +1255,8 @@ def _check_refused_type(f, h, sid, s, req, pk, first_end):
         if f.impl == 'asyncio':
             stuck = [1]
         out.append(V('refused-type-fails-request',
-                     '%s|refused-type-post-never-answered' % f.impl,
+                     '%s|refused-type-post-never-answered|%s' % (
+                         f.impl, k1_reader(h, sid, req.t_arrive, req.seq_arrive)),
                      'session %s: POST %d carried packet type %d at t=%.4f; '
                      'the request was still unanswered at t=%.4f%s' % (
                          sid, req.rid, bad, req.t_arrive, f.end,
@@ -1854,6 +1935,12 @@ def check_completion(h, f=None):
                 blocked = [b for b in (h.final.get('blocked') or [])
                            if b[0] == 'W%d' % req.rid]
                 where = blocked[0][1] if blocked else 'pending'
+                if req.method == 'POST' and 'refused-body' in shape and \
+                        'live-sid' in shape:
+                    q_ = _up.parse_qs(req.query)
+                    where += '|' + k1_reader(
+                        h, q_['sid'][0] if 'sid' in q_ else None,
+                        req.t_arrive, req.seq_arrive)
                 out.append(V('bounded-completion',
                              '%s|request-never-completed|%s|%s' % (
                                  impl, shape, where),
@@ -1892,6 +1979,10 @@ def check_completion(h, f=None):
             what = a['name'] + ('(sid)' if 'sid' in a else '()')
             if 'sid' not in a:
                 tr = 'all'
+            if a['name'] == 'disconnect':
+                tr += '|' + (k1_reader(h, a.get('sid'), a['t_start'],
+                                       a['seq_start'])
+                             if 'sid' in a else k1_reader_all(h, a))
             out.append(V('api-returns',
                          '%s|api-call-blocked|%s|%s' % (impl, what, tr),
                          'application call %s%s started at t=%.4f and %s '
@@ -2529,8 +2620,10 @@ def check_limits(h, f=None):
                 if req.status is None:
                     if req.t_arrive < f.end - 0.5:
                         out.append(V('oversize-post-400',
-                                     '%s|oversize-post-never-answered' %
-                                     impl, 'POST %d declared %d > limit %d '
+                                     '%s|oversize-post-never-answered|%s' %
+                                     (impl, k1_reader(h, sid, req.t_arrive,
+                                                      req.seq_arrive)),
+                                     'POST %d declared %d > limit %d '
                                      'was never answered' % (
                                          req.rid, declared, limit)))
                 elif req.status != 400:
